@@ -799,6 +799,9 @@ func (g *gen) coBody(fc *fctx) (string, *fnSig, []Stmt) {
 	}
 	for y := 0; y < ny; y++ {
 		body = append(body, g.stmtsIn(g.ch(3), fc2)...)
+		if g.feat("yield_boundary") && g.ch(4) == 0 {
+			body = append(body, g.yieldBoundary(fc2)...)
+		}
 		body = append(body, g.yieldStmt(fc2)...)
 		if uvName != "" {
 			r := g.fresh("ur")
@@ -831,6 +834,94 @@ func (g *gen) coBody(fc *fctx) (string, *fnSig, []Stmt) {
 	}
 	g.declare(&varInfo{name: name, k: kAny, sig: sig, fnLevel: fc.level})
 	return name, sig, []Stmt{&Local{Names: []string{name}, Exprs: []Expr{Func{fd}}}}
+}
+
+// yieldBoundary: a yield attempted while a host function that called back into Lua is on the coroutine's
+// stack (pcall/xpcall, a metamethod, a generic-for iterator, a sort comparator, a gsub callback, a host
+// function). Lua 5.1 refuses it with an error raised at the yield; the coroutine stays running, nothing
+// is transferred, and later yields work as before.
+func (g *gen) yieldBoundary(fc *fctx) []Stmt {
+	g.use("yield_across_boundary")
+	g.cost(25)
+	ok, e, tmp := g.fresh("ok"), g.fresh("ye"), g.fresh("yt")
+	yield := &Call{Fn: Var{"coyield"}, Args: []Expr{g.numExpr(0)}}
+	unreachable := &Call{Fn: Var{"emit"}, Args: []Expr{Str{"unreachable"}}}
+	// function literals are bound to a local first (the renderer's rule); def returns the declaration and the name
+	def := func(params []string, body ...Stmt) (Stmt, Var) {
+		g.prog.NFuncs++
+		n := g.fresh("bf")
+		return &Local{Names: []string{n}, Exprs: []Expr{Func{&FuncDef{ID: g.prog.NFuncs, Params: params, Body: body}}}}, Var{n}
+	}
+	kinds := []int{0, 1}
+	if g.feat("meta") {
+		kinds = append(kinds, 2, 3)
+	}
+	if g.feat("sort") {
+		kinds = append(kinds, 4)
+	}
+	if g.feat("gsub") {
+		kinds = append(kinds, 5)
+	}
+	if g.feat("loop") {
+		kinds = append(kinds, 6)
+	}
+	if g.feat("hostcall") {
+		kinds = append(kinds, 7)
+	}
+	var inner []Stmt // statements that attempt the yield below a host-function boundary
+	direct := false  // pcall(coyield, v): the yield function itself is what the nested loop starts with
+	switch kinds[g.ch(len(kinds))] {
+	case 0:
+		inner = []Stmt{yield, unreachable}
+	case 1:
+		direct = true
+	case 2, 3:
+		mt, ob := g.fresh("mt"), g.fresh("ob")
+		field, trig := "__index", Expr(Index{Var{ob}, Str{"missing"}})
+		if g.ch(2) == 0 {
+			field, trig = "__add", Bin{"+", Var{ob}, Num{1}}
+		}
+		d, f := def([]string{g.fresh("t"), g.fresh("k")}, yield, unreachable, &Return{Exprs: []Expr{Num{1}}})
+		inner = []Stmt{
+			&Local{Names: []string{mt}, Exprs: []Expr{TableCons{}}},
+			d,
+			&Assign{Targets: []Expr{Index{Var{mt}, Str{field}}}, Exprs: []Expr{f}},
+			&Call{Names: []string{ob}, Fn: Var{"setmetatable"}, Args: []Expr{TableCons{}, Var{mt}}},
+			&Local{Names: []string{tmp}, Exprs: []Expr{trig}},
+			unreachable,
+		}
+	case 4:
+		a, b := g.fresh("a"), g.fresh("b")
+		d, f := def([]string{a, b}, yield, unreachable, &Return{Exprs: []Expr{Bin{"<", Var{a}, Var{b}}}})
+		inner = []Stmt{d, &Call{Fn: Var{"tsort"}, Args: []Expr{TableCons{Arr: []Expr{Num{3}, Num{1}, Num{2}}}, f}}, unreachable}
+	case 5:
+		d, f := def([]string{g.fresh("c")}, yield, unreachable, &Return{Exprs: []Expr{Str{"x"}}})
+		inner = []Stmt{d, &Call{Names: []string{tmp}, Fn: Var{"gsub"}, Args: []Expr{Str{"ab"}, Str{"%a"}, f}}, unreachable}
+	case 6:
+		d, f := def(nil, yield, unreachable, &Return{Exprs: []Expr{Nil{}}})
+		inner = []Stmt{d, &GenFor{Names: []string{g.fresh("it")}, Exprs: []Expr{f}, Body: []Stmt{unreachable}}, unreachable}
+	default:
+		d, f := def(nil, yield, unreachable, &Return{Exprs: []Expr{Num{1}}})
+		inner = []Stmt{d, &Call{Names: []string{tmp}, Fn: Var{"hostcall"}, Args: []Expr{f}}, unreachable}
+	}
+	var out []Stmt
+	switch {
+	case direct:
+		out = []Stmt{&Call{Names: []string{ok, e}, Fn: Var{"pcall"}, Args: []Expr{Var{"coyield"}, g.numExpr(0)}}}
+	case g.feat("xpcall") && g.ch(3) == 0:
+		h := g.fresh("h")
+		d1, f1 := def(nil, inner...)
+		d2, f2 := def([]string{h}, &Return{Exprs: []Expr{Var{h}}})
+		out = []Stmt{d1, d2, &Call{Names: []string{ok, e}, Fn: Var{"xpcall"}, Args: []Expr{f1, f2}}}
+	case g.ch(8) == 0:
+		// unprotected: the refusal kills the coroutine like any other error
+		g.use("yield_across_boundary_unprotected")
+		return inner
+	default:
+		d1, f1 := def(nil, inner...)
+		out = []Stmt{d1, &Call{Names: []string{ok, e}, Fn: Var{"pcall"}, Args: []Expr{f1}}}
+	}
+	return append(out, &Call{Fn: Var{"emit"}, Args: []Expr{Str{"yb"}, Var{ok}, Var{e}}})
 }
 
 func (g *gen) yieldStmt(fc *fctx) []Stmt {
